@@ -126,9 +126,9 @@ func vC14One(withVal, withMsg bool, maxVal, maxMsg int) {
 	vReach("end")
 }
 
-func H_C14_rt_key()        { vC14One(false, false, 0, 0) }
-func H_C14_rt_key_val()    { vC14One(true, false, 3, 0) }
-func H_C14_rt_key_msg()    { vC14One(false, true, 0, 4) }
+func H_C14_rt_key()         { vC14One(false, false, 0, 0) }
+func H_C14_rt_key_val()     { vC14One(true, false, 3, 0) }
+func H_C14_rt_key_msg()     { vC14One(false, true, 0, 4) }
 func H_C14_rt_key_val_msg() { vC14One(true, true, 2, 4) }
 
 // two rules accumulated with RM.Set (two calls and one call), order and count preserved
